@@ -25,6 +25,8 @@ import (
 	"runtime"
 	"sync"
 	"unsafe"
+
+	"github.com/uber-go/tally/v4/internal/verifhook"
 )
 
 var (
@@ -114,9 +116,11 @@ func (r *scopeRegistry) Report(reporter StatsReporter) {
 	r.reportInternalMetrics()
 
 	for _, subscopeBucket := range r.subscopes {
+		verifhook.AtRLock("rp_rlock", &subscopeBucket.mu)
 		subscopeBucket.mu.RLock()
 
 		for name, s := range subscopeBucket.s {
+			verifhook.At("rp_visit")
 			// n.b. Read the flag before reporting: everything recorded before
 			//      Close was called is then covered by this report, whereas a
 			//      Close that slips in after the report would otherwise drop
@@ -138,9 +142,11 @@ func (r *scopeRegistry) CachedReport() {
 	r.reportInternalMetrics()
 
 	for _, subscopeBucket := range r.subscopes {
+		verifhook.AtRLock("rp_rlock", &subscopeBucket.mu)
 		subscopeBucket.mu.RLock()
 
 		for name, s := range subscopeBucket.s {
+			verifhook.At("rp_visit")
 			closed := s.closed.Load()
 			s.cachedReport()
 
@@ -156,6 +162,7 @@ func (r *scopeRegistry) CachedReport() {
 
 func (r *scopeRegistry) ForEachScope(f func(*scope)) {
 	for _, subscopeBucket := range r.subscopes {
+		verifhook.AtRLock("fe_rlock", &subscopeBucket.mu)
 		subscopeBucket.mu.RLock()
 		for _, s := range subscopeBucket.s {
 			f(s)
@@ -165,6 +172,7 @@ func (r *scopeRegistry) ForEachScope(f func(*scope)) {
 }
 
 func (r *scopeRegistry) Subscope(parent *scope, prefix string, tags map[string]string) *scope {
+	verifhook.At("ss_closed_check")
 	if r.root.closed.Load() || parent.closed.Load() {
 		return NoopScope.(*scope)
 	}
@@ -178,6 +186,7 @@ func (r *scopeRegistry) Subscope(parent *scope, prefix string, tags map[string]s
 	_, _ = h.Write(buf)
 	subscopeBucket := r.subscopes[h.Sum64()%uint64(len(r.subscopes))]
 
+	verifhook.AtRLock("ss_rlock", &subscopeBucket.mu)
 	subscopeBucket.mu.RLock()
 	// buf is stack allocated and casting it to a string for lookup from the cache
 	// as the memory layout of []byte is a superset of string the below casting is safe and does not do any alloc
@@ -189,6 +198,7 @@ func (r *scopeRegistry) Subscope(parent *scope, prefix string, tags map[string]s
 	)
 
 	s, ok := r.lockedLookup(subscopeBucket, unsanitizedKey)
+	verifhook.At("ss_found_check")
 	if ok {
 		// If this subscope isn't closed or is a test scope, return it.
 		// Otherwise, report it immediately and delete it so that a new
@@ -227,6 +237,7 @@ func (r *scopeRegistry) Subscope(parent *scope, prefix string, tags map[string]s
 	// ref: https://go.dev/play/p/sxhExUKSxCw
 	unsanitizedKey = (unsanitizedKey + ".")[:len(unsanitizedKey)]
 
+	verifhook.AtLock("ss_lock", &subscopeBucket.mu)
 	subscopeBucket.mu.Lock()
 	defer subscopeBucket.mu.Unlock()
 
@@ -280,6 +291,7 @@ func (r *scopeRegistry) purgeIfRootClosed() {
 	}
 
 	for _, subscopeBucket := range r.subscopes {
+		verifhook.AtLock("pg_lock", &subscopeBucket.mu)
 		subscopeBucket.mu.Lock()
 		for k, s := range subscopeBucket.s {
 			if !s.root {
@@ -295,8 +307,11 @@ func (r *scopeRegistry) purgeIfRootClosed() {
 func (r *scopeRegistry) removeWithRLock(subscopeBucket *scopeBucket, key string, s *scope) {
 	// n.b. This function must lock the registry for writing and return it to an
 	//      RLocked state prior to exiting. Defer order is important (LIFO).
+	verifhook.At("rm_runlock")
 	subscopeBucket.mu.RUnlock()
 	defer subscopeBucket.mu.RLock()
+	defer verifhook.AtRLock("rm_relock", &subscopeBucket.mu)
+	verifhook.AtLock("rm_lock", &subscopeBucket.mu)
 	subscopeBucket.mu.Lock()
 	defer subscopeBucket.mu.Unlock()
 	// n.b. While no lock was held a fresh, live scope may have been registered
@@ -317,14 +332,17 @@ func (r *scopeRegistry) reportInternalMetrics() {
 	scopes := 1 // Account for root scope.
 	r.ForEachScope(
 		func(ss *scope) {
+			verifhook.AtRLock("im_c", &ss.cm)
 			ss.cm.RLock()
 			counterSliceLen := int64(len(ss.countersSlice))
 			ss.cm.RUnlock()
 
+			verifhook.AtRLock("im_g", &ss.gm)
 			ss.gm.RLock()
 			gaugeSliceLen := int64(len(ss.gaugesSlice))
 			ss.gm.RUnlock()
 
+			verifhook.AtRLock("im_h", &ss.hm)
 			ss.hm.RLock()
 			histogramSliceLen := int64(len(ss.histogramsSlice))
 			ss.hm.RUnlock()
